@@ -338,109 +338,7 @@ func runC16(c *Ctx) {
 	}
 
 	// ---------- R1 request server cursor ----------
-	if fl := p.Func("filelist"); fl == nil {
-		c.missing("R1", "filelist")
-	} else {
-		c.looked("filelist")
-		lsNext := callsWhere(fl, func(cc *ssa.CallCommon) bool { return calleeName(cc) == "lsNext" })
-		listAt := callsWhere(fl, func(cc *ssa.CallCommon) bool { return cc.IsInvoke() && cc.Method.Name() == "ListAt" })
-		lsInc := callsWhere(fl, func(cc *ssa.CallCommon) bool { return calleeName(cc) == "lsInc" })
-		if len(lsNext) != 1 || len(listAt) != 1 {
-			c.bad("R1", "filelist shape", p.Pos(fl.Pos()), fmt.Sprintf("%d lsNext and %d ListAt calls (expected 1 and 1)", len(lsNext), len(listAt)))
-		} else {
-			la := listAt[0].(*ssa.Call)
-			// offset argument is the cursor just read
-			okOff := false
-			for _, l := range leavesOf(la.Call.Args[1]) {
-				if l.Kind == leafCallResult && l.CallIn == lsNext[0] {
-					okOff = true
-				}
-			}
-			c.check(okOff && len(leavesOf(la.Call.Args[1])) == 1, "R1", "ListAt at the cursor", pos(la), "ListAt(buf, r.lsNext())", "ListAt is not called at the handle's current cursor: entries are repeated or skipped")
-			// buffer of MaxFilelist entries
-			okBuf := false
-			for _, l := range leavesOfIface(la.Call.Args[0]) {
-				if m, ok := l.(*ssa.MakeSlice); ok {
-					for _, lf := range leavesOf(m.Len) {
-						if lf.Kind == leafGlobal && lf.V.Name() == "MaxFilelist" {
-							okBuf = true
-						}
-					}
-				}
-			}
-			c.check(okBuf, "R1", "ListAt buffer", pos(la), "make([]os.FileInfo, MaxFilelist)", "the ListAt buffer is not a fresh MaxFilelist-sized slice")
-			// lsInc exactly once after ListAt on every path, with ListAt's own count
-			nKey := fmt.Sprintf("%s#0", valKey(la))
-			isInc := func(in ssa.Instruction) bool {
-				cc := callOf(in)
-				_, plain := in.(*ssa.Call)
-				return plain && cc != nil && calleeName(cc) == "lsInc"
-			}
-			mn, mx, n := countPaths(fl, la, isReturn, isInc)
-			c.check(n > 0 && mn == 1 && mx == 1, "R1", "cursor advanced exactly once per batch", pos(la), "one lsInc on every path after ListAt", fmt.Sprintf("the cursor is advanced between %d and %d times after a ListAt: entries are skipped or served twice", mn, mx))
-			for _, inc := range lsInc {
-				t := affineOf(argsOf(callOf(inc))[0])
-				c.check(len(t.coef) == 1 && t.coef[nKey] == 1 && t.c == 0, "R1", "cursor advanced by ListAt's count", pos(inc), "lsInc(int64(n))", "the cursor advances by "+t.String()+", not by the number of entries ListAt returned: a lister that returns a short batch loses or repeats entries")
-			}
-			// entries: range over finfo[:n]
-			okRange := false
-			var appendLoop *loop
-			for _, l := range loopsOf(fl) {
-				for _, in := range l.head.Instrs {
-					_ = in
-				}
-				// a loop whose bound is len(finfo[:n])
-				for b := range l.blocks {
-					for _, in := range b.Instrs {
-						if cc := callOf(in); cc != nil && builtinName(cc) == "append" {
-							appendLoop = l
-						}
-					}
-				}
-			}
-			if appendLoop != nil {
-				// the ranged slice is Slice(buf, High=n)
-				for _, b := range fl.Blocks {
-					for _, in := range b.Instrs {
-						if cc := callOf(in); cc != nil && builtinName(cc) == "len" {
-							for _, l := range leavesOfIface(cc.Args[0]) {
-								if s, ok := l.(*ssa.Slice); ok && s.Low == nil && s.High != nil {
-									h := affineOf(s.High)
-									if len(h.coef) == 1 && h.coef[nKey] == 1 && h.c == 0 {
-										okRange = true
-									}
-								}
-							}
-						}
-					}
-				}
-				mnA, mxA, okA := countLoopIter(appendLoop, func(in ssa.Instruction) bool {
-					cc := callOf(in)
-					return cc != nil && builtinName(cc) == "append"
-				})
-				c.check(okA && mnA == 1 && mxA == 1, "R1", "one reply entry per listed entry", p.Pos(appendLoop.head.Instrs[0].Pos()), "one append per element", "an element of the batch is appended more than once (or the loop does not append)")
-			}
-			c.check(okRange, "R1", "reply built from finfo[:n]", pos(la), "entries = finfo[:n]", "the reply is not built from exactly the first n entries ListAt filled in")
-			// status condition: truth table over err {nil, EOF, other} x n {0, >0}
-			checkEOFCondition(c, fl, la, "R1", "filelist")
-		}
-	}
-	// lsoffset written only by lsInc as += param
-	for _, a := range p.accessesOf("state", "lsoffset") {
-		if !a.Write || isFreshRoot(a.Root) {
-			continue
-		}
-		good := fnName(a.Fn) == "(*state).lsInc"
-		if good {
-			for _, r := range *a.In.(ssa.Value).Referrers() {
-				if st, ok := r.(*ssa.Store); ok {
-					t := affineOf(st.Val)
-					good = len(t.coef) == 2 && t.c == 0 && t.coef["param:offset"] == 1
-				}
-			}
-		}
-		c.check(good, "R1", "write of lsoffset in "+fnName(a.Fn), pos(a.In), "only lsInc advances the cursor, by its argument", "the listing cursor is modified outside lsInc or not by += argument")
-	}
+	checkListingCursor(c)
 
 	// ---------- R2 READDIR is sequential ----------
 	if d := getDispatcher(c, "R2"); d != nil && d.pktVal != nil {
@@ -1127,4 +1025,118 @@ func checkMemFSNameIndex(c *Ctx, rule string) {
 		})
 	}
 	c.check(n >= 3, rule, "in-memory backend: entries filed", "?", fmt.Sprintf("%d sites", n), fmt.Sprintf("only %d sites found", n))
+}
+
+
+// checkListingCursor (C16.R1, shared with C10 as R9): the request server reads the cursor, calls ListAt at it, advances
+// it by ListAt's own count exactly once, emits finfo[:n] and answers STATUS exactly when there is nothing to deliver.
+func checkListingCursor(c *Ctx) {
+	p := c.P
+	pos := func(in ssa.Instruction) string { return p.Pos(in.Pos()) }
+	_ = pos
+	// ---------- R1 request server cursor ----------
+	if fl := p.Func("filelist"); fl == nil {
+		c.missing("R1", "filelist")
+	} else {
+		c.looked("filelist")
+		lsNext := callsWhere(fl, func(cc *ssa.CallCommon) bool { return calleeName(cc) == "lsNext" })
+		listAt := callsWhere(fl, func(cc *ssa.CallCommon) bool { return cc.IsInvoke() && cc.Method.Name() == "ListAt" })
+		lsInc := callsWhere(fl, func(cc *ssa.CallCommon) bool { return calleeName(cc) == "lsInc" })
+		if len(lsNext) != 1 || len(listAt) != 1 {
+			c.bad("R1", "filelist shape", p.Pos(fl.Pos()), fmt.Sprintf("%d lsNext and %d ListAt calls (expected 1 and 1)", len(lsNext), len(listAt)))
+		} else {
+			la := listAt[0].(*ssa.Call)
+			// offset argument is the cursor just read
+			okOff := false
+			for _, l := range leavesOf(la.Call.Args[1]) {
+				if l.Kind == leafCallResult && l.CallIn == lsNext[0] {
+					okOff = true
+				}
+			}
+			c.check(okOff && len(leavesOf(la.Call.Args[1])) == 1, "R1", "ListAt at the cursor", pos(la), "ListAt(buf, r.lsNext())", "ListAt is not called at the handle's current cursor: entries are repeated or skipped")
+			// buffer of MaxFilelist entries
+			okBuf := false
+			for _, l := range leavesOfIface(la.Call.Args[0]) {
+				if m, ok := l.(*ssa.MakeSlice); ok {
+					for _, lf := range leavesOf(m.Len) {
+						if lf.Kind == leafGlobal && lf.V.Name() == "MaxFilelist" {
+							okBuf = true
+						}
+					}
+				}
+			}
+			c.check(okBuf, "R1", "ListAt buffer", pos(la), "make([]os.FileInfo, MaxFilelist)", "the ListAt buffer is not a fresh MaxFilelist-sized slice")
+			// lsInc exactly once after ListAt on every path, with ListAt's own count
+			nKey := fmt.Sprintf("%s#0", valKey(la))
+			isInc := func(in ssa.Instruction) bool {
+				cc := callOf(in)
+				_, plain := in.(*ssa.Call)
+				return plain && cc != nil && calleeName(cc) == "lsInc"
+			}
+			mn, mx, n := countPaths(fl, la, isReturn, isInc)
+			c.check(n > 0 && mn == 1 && mx == 1, "R1", "cursor advanced exactly once per batch", pos(la), "one lsInc on every path after ListAt", fmt.Sprintf("the cursor is advanced between %d and %d times after a ListAt: entries are skipped or served twice", mn, mx))
+			for _, inc := range lsInc {
+				t := affineOf(argsOf(callOf(inc))[0])
+				c.check(len(t.coef) == 1 && t.coef[nKey] == 1 && t.c == 0, "R1", "cursor advanced by ListAt's count", pos(inc), "lsInc(int64(n))", "the cursor advances by "+t.String()+", not by the number of entries ListAt returned: a lister that returns a short batch loses or repeats entries")
+			}
+			// entries: range over finfo[:n]
+			okRange := false
+			var appendLoop *loop
+			for _, l := range loopsOf(fl) {
+				for _, in := range l.head.Instrs {
+					_ = in
+				}
+				// a loop whose bound is len(finfo[:n])
+				for b := range l.blocks {
+					for _, in := range b.Instrs {
+						if cc := callOf(in); cc != nil && builtinName(cc) == "append" {
+							appendLoop = l
+						}
+					}
+				}
+			}
+			if appendLoop != nil {
+				// the ranged slice is Slice(buf, High=n)
+				for _, b := range fl.Blocks {
+					for _, in := range b.Instrs {
+						if cc := callOf(in); cc != nil && builtinName(cc) == "len" {
+							for _, l := range leavesOfIface(cc.Args[0]) {
+								if s, ok := l.(*ssa.Slice); ok && s.Low == nil && s.High != nil {
+									h := affineOf(s.High)
+									if len(h.coef) == 1 && h.coef[nKey] == 1 && h.c == 0 {
+										okRange = true
+									}
+								}
+							}
+						}
+					}
+				}
+				mnA, mxA, okA := countLoopIter(appendLoop, func(in ssa.Instruction) bool {
+					cc := callOf(in)
+					return cc != nil && builtinName(cc) == "append"
+				})
+				c.check(okA && mnA == 1 && mxA == 1, "R1", "one reply entry per listed entry", p.Pos(appendLoop.head.Instrs[0].Pos()), "one append per element", "an element of the batch is appended more than once (or the loop does not append)")
+			}
+			c.check(okRange, "R1", "reply built from finfo[:n]", pos(la), "entries = finfo[:n]", "the reply is not built from exactly the first n entries ListAt filled in")
+			// status condition: truth table over err {nil, EOF, other} x n {0, >0}
+			checkEOFCondition(c, fl, la, "R1", "filelist")
+		}
+	}
+	// lsoffset written only by lsInc as += param
+	for _, a := range p.accessesOf("state", "lsoffset") {
+		if !a.Write || isFreshRoot(a.Root) {
+			continue
+		}
+		good := fnName(a.Fn) == "(*state).lsInc"
+		if good {
+			for _, r := range *a.In.(ssa.Value).Referrers() {
+				if st, ok := r.(*ssa.Store); ok {
+					t := affineOf(st.Val)
+					good = len(t.coef) == 2 && t.c == 0 && t.coef["param:offset"] == 1
+				}
+			}
+		}
+		c.check(good, "R1", "write of lsoffset in "+fnName(a.Fn), pos(a.In), "only lsInc advances the cursor, by its argument", "the listing cursor is modified outside lsInc or not by += argument")
+	}
+
 }
